@@ -25,6 +25,9 @@ func (b *c18B) meta(mode uint64) c18El {
 		}
 		if b.rng.Chance(1, 6) {
 			e.Mode = mode&sIFMT | uint64(b.rng.Intn(01000))
+			if mode&sIFMT != sIFDIR && b.rng.Chance(1, 3) { // setuid/setgid/sticky (a setgid directory changes the group of what is created in it)
+				e.Mode |= uint64(b.rng.Intn(8)) << 9
+			}
 		}
 	}
 	return e
